@@ -317,7 +317,7 @@ pub fn custom(case: &Case, v: &serde_json::Value, _via: Via) -> Verdict {
     let pairs = v["pairs"].as_array().cloned().unwrap_or_default();
     let mut last_err = String::new();
     for p in pairs {
-        let parts = vec![format!("'{op}'"), format!("'{}'", p[0].as_str().unwrap_or("")), format!("'{}'", p[1].as_str().unwrap_or(""))];
+        let parts = vec![op.to_string(), p[0].as_str().unwrap_or("").to_string(), p[1].as_str().unwrap_or("").to_string()];
         match check_diag(&o.err_s(), "case.sd", &[DiagPred::WellFormed{max_line: lines}, DiagPred::MsgContains(parts)]) {
             Ok(()) => return Verdict::Pass,
             Err(e) => last_err = e,
